@@ -165,27 +165,34 @@ def meanScale (m : Int) (shiftVela : Int) (n : Nat) : Option (Int × Int) :=
 /-- bit `i` of a mask -/
 def bit (mask i : Nat) : Bool := mask / 2 ^ i % 2 == 1
 
+/-- the value `_get_slice_offsets` stores for a position that is not masked: a negative index counts from the end of the
+    ADDRESSED dimension `d`; `clampV` (repair C01-51): clamped to `[0, d]` as the reference kernel does, the unrepaired code
+    stores it as it is -/
+def sliceVal (clampV : Bool) (d : Nat) (v : Int) : Int :=
+  let r := if v < 0 then v + (d : Int) else v
+  if clampV then (if r < 0 then 0 else if r > (d : Int) then (d : Int) else r) else r
+
 /-- the loop of `_get_slice_offsets`: `spec` runs over the positions of the specification (the remaining values), `idx` over
     the input dimensions. A position whose `new_axis_mask` bit is set consumes no input dimension. -/
-def sliceOffsetsGo (shape : List Nat) (mask newAxis : Nat) : List Int → Nat → Nat → List Int → List Int
+def sliceOffsetsGo (clampV : Bool) (shape : List Nat) (mask newAxis : Nat) : List Int → Nat → Nat → List Int → List Int
   | [], _, _, offs => offs
   | v :: rest, spec, idx, offs =>
-    if bit newAxis spec then sliceOffsetsGo shape mask newAxis rest (spec + 1) idx offs
+    if bit newAxis spec then sliceOffsetsGo clampV shape mask newAxis rest (spec + 1) idx offs
     else if idx ≥ shape.length then offs
     else
-      let offs := if !bit mask spec then offs.set idx (if v < 0 then v + (shape.getD idx 0 : Nat) else v) else offs
-      sliceOffsetsGo shape mask newAxis rest (spec + 1) (idx + 1) offs
+      let offs := if !bit mask spec then offs.set idx (sliceVal clampV (shape.getD idx 0) v) else offs
+      sliceOffsetsGo clampV shape mask newAxis rest (spec + 1) (idx + 1) offs
 
 /-- `_get_slice_offsets(input_shape, offset_tens, offset_mask, is_begin, new_axis_mask)` -/
-def getSliceOffsets (shape : List Nat) (vals : List Int) (mask : Nat) (isBegin : Bool) (newAxis : Nat) : List Int :=
+def getSliceOffsets (clampV : Bool) (shape : List Nat) (vals : List Int) (mask : Nat) (isBegin : Bool) (newAxis : Nat) : List Int :=
   let init : List Int := if isBegin then shape.map (fun _ => (0 : Int)) else shape.map (fun d => ((d : Nat) : Int))
-  sliceOffsetsGo shape mask newAxis vals 0 0 init
+  sliceOffsetsGo clampV shape mask newAxis vals 0 0 init
 
 /-- `constraint_slice_ranges`: `(offset_begin, offset_end, valid)` -/
-def sliceRanges (shape : List Nat) (beginV endV : List Int) (beginMask endMask shrinkMask newAxis : Nat) :
+def sliceRanges (clampV : Bool) (shape : List Nat) (beginV endV : List Int) (beginMask endMask shrinkMask newAxis : Nat) :
     List Int × List Int × Bool :=
-  let b := getSliceOffsets shape beginV beginMask true newAxis
-  let e0 := getSliceOffsets shape endV endMask false newAxis
+  let b := getSliceOffsets clampV shape beginV beginMask true newAxis
+  let e0 := getSliceOffsets clampV shape endV endMask false newAxis
   let e := (List.range shape.length).map fun i => if bit shrinkMask i then b.getD i 0 + 1 else e0.getD i 0
   let valid := (List.range shape.length).all fun i => bit shrinkMask i || e.getD i 0 > b.getD i 0
   (b, e, valid)
